@@ -167,4 +167,25 @@ def stream (ptopic : Str) (filter : HErr → Bool) : List Item → List Out
   | [] => []
   | it :: rest => middleware ptopic filter it.pub it.ctx it.msg it.res :: stream ptopic filter rest
 
+/-! ### stateful filters
+
+  `shouldGoToPoisonQueue` is user code and need not be a function of the error: a budget, a rate limit, "only the first
+  occurrence" answer differently from one consultation to the next.  Such a filter is scripted as the list of answers
+  it will give (none left = it refuses).  The middleware consults it exactly once for a failed message and not at
+  all for a handled one; the answer it got is the verdict. -/
+
+def middlewareS (ptopic : Str) (answers : List Bool) (pub : POut) (c : Ctx) (msg : Msg) (h : HRes) : Out × List Bool :=
+  match h.err with
+  | none => (middleware ptopic (fun _ => false) pub c msg h, answers)
+  | some _ => (middleware ptopic (fun _ => answers.headD false) pub c msg h, answers.tail)
+
+/-- number of consultations of the filter for one message -/
+def consultations (h : HRes) : Nat := if h.err.isSome then 1 else 0
+
+def streamS (ptopic : Str) : List Bool → List Item → List Out
+  | _, [] => []
+  | ans, it :: rest =>
+    (middlewareS ptopic ans it.pub it.ctx it.msg it.res).1 ::
+      streamS ptopic (middlewareS ptopic ans it.pub it.ctx it.msg it.res).2 rest
+
 end Wm.Poison
